@@ -155,11 +155,12 @@ def udp_frames(seed, ipv, target):
                    dict(d="c", pkts=[dict(t="A", d="c", gen=0, frames=[dict(ft="stream", a=3, b=0)])]),
                    dict(d="s", pkts=[dict(t="A", d="s", gen=0, frames=[dict(ft="stream", a=4, b=0)])])], out=[], kf=False)
     c, payload = build_quic(b, seed, dict(pnlen={"c": 2, "s": 2}))
-    fl0 = mk_flow(seed % 50 + 60, ipv=ipv, cport=0)
+    sport = rng.choice([443, 443, 4433, 8443, 50001])        # QUIC is recognised on any port: -c applies there too
+    fl0 = mk_flow(seed % 50 + 60, ipv=ipv, cport=0, sport=sport)
     g = c.dgrams[4]                                   # a client datagram with stream data
     port = rng.randint(1024, 65000)
     if target is not None:
-        dg0 = udp_datagram(fl0.client.ip, fl0.server.ip, 0, 443, g.payload, sum_override=0)
+        dg0 = udp_datagram(fl0.client.ip, fl0.server.ip, 0, sport, g.payload, sum_override=0)
         x = steer_word(raw_sum(pseudo(fl0.client.ip, fl0.server.ip, 17, len(dg0)) + dg0), target)
         if x is not None and x >= 1024:
             port = x
